@@ -278,3 +278,79 @@ func (fc *FuncCtx) obligeAt(st *State, kind, site, goal, pos, text string) {
 		fc.obls[len(fc.obls)-1].GroundTest = fc.groundTest
 	}
 }
+
+// groundJSONShape (C05, sFlow path): encoding/json.Marshal either returns valid JSON or an error
+// (trusted); it fails for channel, function and complex values and for maps with unsupported key
+// types. Every struct type of packages sflow and packet (the values reachable from *SFDatagram,
+// including those stored in interface-typed fields) must therefore consist of encodable types.
+func (w *World) groundJSONShape() (fc *FuncCtx) {
+	pkg := w.Pkgs[repoModule+"/sflow"]
+	fc = &FuncCtx{w: w, pkg: pkg, info: pkg.TypesInfo, key: repoModule + "/sflow.jsonshape", counter: map[string]int{}, allVars: map[*types.Var]bool{}, usedContracts: map[string]bool{},
+		contract: &Contract{Loops: map[int]*LoopContract{}, Opts: map[string]string{}, Pkg: pkg}}
+	st := &State{guard: "true", vars: map[types.Object]Term{}, alias: map[types.Object]ast.Expr{}, ghost: map[string]Term{}, held: map[string]string{}}
+	var encodable func(t types.Type, depth int) (bool, string)
+	encodable = func(t types.Type, depth int) (bool, string) {
+		if depth > 8 {
+			return true, ""
+		}
+		switch u := t.Underlying().(type) {
+		case *types.Basic:
+			if u.Info()&types.IsComplex != 0 || u.Kind() == types.UnsafePointer {
+				return false, "complex or unsafe value"
+			}
+			return true, ""
+		case *types.Chan:
+			return false, "channel"
+		case *types.Signature:
+			return false, "function value"
+		case *types.Pointer:
+			return encodable(u.Elem(), depth+1)
+		case *types.Slice:
+			return encodable(u.Elem(), depth+1)
+		case *types.Array:
+			return encodable(u.Elem(), depth+1)
+		case *types.Map:
+			kb, ok := u.Key().Underlying().(*types.Basic)
+			if !ok || kb.Info()&(types.IsString|types.IsInteger) == 0 {
+				// net.IP etc. implement TextMarshaler; anything else is rejected by encoding/json
+				return false, "map key type " + types.TypeString(u.Key(), nil)
+			}
+			return encodable(u.Elem(), depth+1)
+		case *types.Struct:
+			for i := 0; i < u.NumFields(); i++ {
+				f := u.Field(i)
+				if !f.Exported() {
+					continue // not encoded
+				}
+				if ok, why := encodable(f.Type(), depth+1); !ok {
+					return false, "field " + f.Name() + ": " + why
+				}
+			}
+			return true, ""
+		case *types.Interface:
+			return true, "" // dynamic types are the struct types checked below
+		}
+		return true, ""
+	}
+	for _, path := range []string{repoModule + "/sflow", repoModule + "/packet"} {
+		p := w.Pkgs[path]
+		names := p.Types.Scope().Names()
+		sort.Strings(names)
+		for _, n := range names {
+			tn, ok := p.Types.Scope().Lookup(n).(*types.TypeName)
+			if !ok {
+				continue
+			}
+			if _, isStruct := tn.Type().Underlying().(*types.Struct); !isStruct {
+				continue
+			}
+			ok2, why := encodable(tn.Type(), 0)
+			goal := "true"
+			if !ok2 {
+				goal = "false"
+			}
+			fc.obligeAt(st, "ground.jsonshape", p.Name+"."+n, goal, shortPath(w.Fset.Position(tn.Pos()).String()), "every exported field of "+p.Name+"."+n+" has a type encoding/json can encode "+why)
+		}
+	}
+	return fc
+}
